@@ -564,6 +564,34 @@ def b_random_radius(S):
     return out
 
 
+def b_random_sample(S):
+    """whole `NetworkRandomSampler.random_network_sample`: the random circle (parameter), its one-row area frame carrying the CRS of the source traces when they have one, the
+    `Network(...)` call with its keyword arguments checked one by one (the WHOLE source frame, that area, truncation and circular area switched on) as an Option-valued oracle
+    (`none` = it raised ValueError), and which value goes into which field of the result. One checked rewriting drops the annotation of the assignment inside `try`."""
+    q = "NetworkRandomSampler.random_network_sample"
+    src = standalone(S[RSAMP], q, [(r"network_maybe: Optional\[Network\] = Network\(", "network_maybe = Network(")])
+    if src.count("network_maybe = Network(") != 1:
+        raise Untranslatable("random_network_sample: the Network call inside try changed")
+    net_call = _kwcall(src, "random_network_sample", "Network", {
+        "trace_gdf": "self.trace_gdf", "area_gdf": "area_gdf", "name": "self.name", "determine_branches_nodes": "determine_branches_nodes",
+        "snap_threshold": "self.snap_threshold", "circular_target_area": "True", "truncate_traces": "True"})
+    res_call = _kwcall(src, "random_network_sample", "RandomSample", {
+        "network_maybe": "network_maybe", "target_centroid": "target_centroid", "radius": "radius", "name": "self.name"})
+    C = {"self.random_target_circle()": "circle_", "gpd.GeoDataFrame({GEOMETRY_COLUMN: [target_circle]})": "(area_frame target_circle)",
+         "self.trace_gdf.crs": "crs", "area_gdf.set_crs(self.trace_gdf.crs)": "(set_crs area_gdf crs)",
+         net_call: "(network_ trace_gdf area_gdf name determine_branches_nodes snap_threshold true true)",
+         res_call: "(network_maybe, target_centroid, radius, name)"}
+    T = {"self.random_target_circle()": "C × P × Rat", "target_circle": "C", "target_centroid": "P", "radius": "Rat",
+         "gpd.GeoDataFrame({GEOMETRY_COLUMN: [target_circle]})": "Ar", "area_gdf": "Ar", "self.trace_gdf.crs": "Option Crs", "area_gdf.set_crs(self.trace_gdf.crs)": "Ar",
+         net_call: "Option N", "network_maybe": "Option N", res_call: "Option N × P × Rat × String"}
+    return translate_function(
+        src, "random_network_sample", "random_network_sample", {"determine_branches_nodes": "Bool"}, "Option N × P × Rat × String", C, types=T,
+        extra_params=[("{C}", "Type"), ("{P}", "Type"), ("{Ar}", "Type"), ("{Crs}", "Type"), ("{N}", "Type"), ("{F}", "Type"), ("trace_gdf", "F"), ("crs", "Option Crs"), ("name", "String"),
+                      ("snap_threshold", "Rat"), ("circle_", "C × P × Rat"), ("area_frame", "C → Ar"), ("set_crs", "Ar → Option Crs → Ar"),
+                      ("network_", "F → Ar → String → Bool → Rat → Bool → Bool → Option N")],
+        default_num="Rat", join="tuple")
+
+
 def b_aggregate_dispatch(S):
     """default aggregator of aggregate_chosen and the fallback chain (shape-checked constants)"""
     tree = ast.parse(S[SUBS])
@@ -2580,7 +2608,7 @@ ITEMS: List[Item] = [
     Item("SnapConstants", BAN, ["C01", "C03", "C06", "C16"], b_snap_constants),
     Item("SnapInsert", BAN, ["C06"], b_snap_insert),
     Item("InsertPoint", BAN, ["C06", "C04", "C01"], b_insert_point),
-    Item("Dedupe", BAN, ["C04", "C01"], b_dedupe),
+    Item("Dedupe", BAN, ["C04", "C01", "C14"], b_dedupe),
     Item("NetworkInit", NETWORK, ["C14", "C08", "C15", "C12"], b_network_init),
     Item("BranchesAndNodes", BAN, ["C01", "C14", "C04", "C03", "C05"], b_branches_and_nodes),
     Item("SimpleSnap", BAN, ["C06", "C01"], b_simple_snap),
@@ -2633,5 +2661,6 @@ ITEMS: List[Item] = [
     Item("Windows", TVALS, ["C10", "C03", "C06"], b_windows, extra_modules=[BAN]),
     Item("RandomRadius", RSAMP, ["C20"], b_random_radius, extra_modules=[GENERAL]),
     Item("AggregateDispatch", SUBS, ["C20"], b_aggregate_dispatch),
+    Item("RandomSample", RSAMP, ["C20"], b_random_sample),
     Item("Subsampling", SUBS, ["C20"], b_subsampling, deps=["ParamTable"], extra_modules=[GENERAL]),
 ]
